@@ -253,9 +253,13 @@ func runHistSerialBody(r *Run) {
 func bucketCollisionScenario(r *Run, st *serState) {
 	c := r.C
 	x := []byte([]string{"key_", "id", "a", "name:", "0"}[c.Intn("colx", 5)])
-	y := findBucketMate(c, x, string(x))
+	var y []byte
+	if c.Intn("colchosen", 3) != 0 {
+		y = findBucketMate(c, x, string(x))
+	}
 	if y == nil {
-		return
+		// no chosen collision: a plain prefix pair still exercises stale table entries / stale buffer content
+		y = append(append([]byte(nil), x...), "_str"...)
 	}
 	q := func(b []byte) string { return "\"" + string(b) + "\"" }
 	var docA, docB string
@@ -299,6 +303,10 @@ func bucketCollisionScenario(r *Run, st *serState) {
 	what := fmt.Sprintf("bucket-collision scenario (mode %d): %s then %s on one Serializer", st.mode, docA, docB)
 	if derr != nil {
 		r.violate("deserialize", "error:"+msgClass(derr.Error()), what+": "+derr.Error())
+		return
+	}
+	if err := CheckTape(out, true); err != nil {
+		r.violate("tape", "deserialized", what+": "+err.Error())
 		return
 	}
 	readBack(r, &simObj{pj: out, model: ob.model, copy: true}, bInto|bAdv, what, nil)
